@@ -44,6 +44,10 @@ Definition to_lower (s : bytes) : bytes := map lower_byte s.
 Definition ans_A : bytes := [65].
 Definition ans_AAAA : bytes := [65; 65; 65; 65].
 
+(** normalize.  The order is the code's: the domain is lower-cased FIRST,
+    before the "A"/"AAAA" early returns, so exception entries are lower-cased
+    like every other entry; the answer is lower-cased only when it turns out
+    to be a canonical name (parse error), i.e. in the CNAME branch. *)
 Definition normalize (r : raw) : entry :=
   let d := to_lower (w_dom r) in
   if eqb_bytes (w_ans r) ans_AAAA then
@@ -51,7 +55,9 @@ Definition normalize (r : raw) : entry :=
   else if eqb_bytes (w_ans r) ans_A then
     {| e_dom := d; e_ans := w_ans r; e_ip := None; e_type := RA |}
   else match w_parse r with
-  | None => {| e_dom := d; e_ans := w_ans r; e_ip := None; e_type := RCNAME |}
+  | None =>
+      (* a canonical name: lower-cased as well *)
+      {| e_dom := d; e_ans := to_lower (w_ans r); e_ip := None; e_type := RCNAME |}
   | Some i =>
       {| e_dom := d; e_ans := w_ans r; e_ip := Some i;
          e_type := if ip_is4 i then RA else RAAAA |}
@@ -280,11 +286,11 @@ End Respond.
     [upstream name qt = None]: the exchange returned an error (transport
     failure) instead of a message.  dnsproxy then builds a SERVFAIL reply
     from the request as it is at that moment (proxy.handleExchangeResult),
-    Resolve returns the error, processUpstream returns resultCodeError, so
-    processFilteringAfterResponse does not run, and proxy.handleDNSRequest
-    still sends that reply ([p.respond(d)] after the handler's error).  For
-    a CNAME resolved upstream the request carries the canonical name at that
-    moment.  The boolean is "the handler returned an error".
+    Resolve returns the error, processUpstream puts the original question
+    back into request and reply (for a CNAME resolved upstream the request
+    carries the canonical name at that moment) and returns resultCodeError,
+    and proxy.handleDNSRequest still sends that reply ([p.respond(d)] after
+    the handler's error).  The boolean is "the handler returned an error".
 
     Whatever the upstream replies (any RCODE, any answer section, empty
     included) the reply object is reused: question restored, CNAME put in
@@ -303,7 +309,7 @@ Section RespondE.
         (false, {| rp_qname := shown; rp_rcode := rc; rp_answer := front ++ ans;
                    rp_upstream := [(asked, qt)] |})
     | None =>
-        (true, {| rp_qname := asked; rp_rcode := rcode_servfail; rp_answer := [];
+        (true, {| rp_qname := shown; rp_rcode := rcode_servfail; rp_answer := [];
                   rp_upstream := [(asked, qt)] |})
     end.
 
